@@ -170,7 +170,8 @@ class P07(SessionPlan):
                  ("unsub", 0, "list", 2), ("ack", 0, "SUBACK", "old"), ("ack", 0, "SUBACK", "new", [0x80, 1, 2, 0, 1]),
                  ("ack", 0, "UNSUBACK", "new"), ("dupack", 0, "SUBACK"), ("stray", 0, "UNSUBACK"), ("stray", 0, "SUBACK"),
                  ("setwin", 0, 1), ("setwin", 0, 3), ("tick",), reconnect(0, False), reconnect(0, True),
-                 ("cross", 0, "SUBACK"), ("cross", 0, "UNSUBACK")]
+                 ("cross", 0, "SUBACK"), ("cross", 0, "UNSUBACK"),
+                 ("call", 0, "subscribe", ([("t/ok", 0), ("x" * 65536, 1)],), {}), ("call", 0, "unsubscribe", (["y" * 65536],), {})]
         depth = 3 if tier == "quick" else 4
         big = []
         for n in (125, 126, 127, 130, 300):
@@ -252,6 +253,11 @@ class P09(SessionPlan):
         for lvl in (3, 4):
             for x in sweep_cases("sweep", cfgs(("pubsub",), ("sync",)), connected(clean=False, win=2, lvl=lvl), alpha, depth):
                 yield x
+        rel_block = connected(clean=False, win=16)
+        for _ in range(20):
+            rel_block += [("pub", 0, 2), ("ack", 0, "PUBREC", "new")]
+        for place in (65531, 65534):
+            yield C.SessionCase("wrap-into-block", Cfg(profile="pubsub"), steps=rel_block + [("placeid", place)] + [("pub", 0, 2)] * 5)
         # the identifier counter wraps while exchanges sit in every stage
         stages = connected(clean=False, win=16) + [("pub", 0, 2), ("ack", 0, "PUBREC", "old"), ("pub", 0, 2), ("pub", 0, 2), ("pub", 0, 2)]
         for place in range(65528, 65536):
@@ -279,8 +285,8 @@ class P10(SessionPlan):
         alpha = [("pub", 0, 0), ("pub", 0, 1), ("pub", 0, 2), ("ack", 0, "PUBACK", "old"), ("ack", 0, "PUBACK", "new"),
                  ("ack", 0, "PUBREC", "old"), ("ack", 0, "PUBCOMP", "old"), ("setwin", 0, 1), ("setwin", 0, 3),
                  reconnect(0, False, win=1), reconnect(0, True, pre=[("pub", 0, 1)])]
-        depth = 4 if tier == "quick" else 6
         for win in (1, 2):
+            depth = 4 if tier == "quick" else (6 if win == 1 else 5)
             for x in sweep_cases("sweep", cfgs(("pubsub",), ("sync",)), connected(clean=False, win=win), alpha, depth):
                 yield x
 
@@ -618,6 +624,15 @@ class P17(SessionPlan):
             for tail in tails:
                 for h in (hold, hold2):
                     yield C.SessionCase("wrap-placed", Cfg(profile="pubsub"), steps=h + [("placeid", place)] + tail)
+        # long blocks of consecutive unfinished identifiers right after the wrap point
+        block1 = connected(clean=False, win=1) + [("pub", 0, 1)] * 70                      # 1 in flight, 69 held back
+        block2 = connected(clean=False, win=16)
+        for _ in range(20):
+            block2 += [("pub", 0, 2), ("ack", 0, "PUBREC", "new")]                        # 20 exchanges waiting for PUBCOMP
+        for blk in (block1, block2):
+            for place in (65530, 65533, 65535):
+                for tail in ([("pub", 0, 1)] * 6, [("sub", 0, "str", 1, 0)] + [("pub", 0, 2)] * 4):
+                    yield C.SessionCase("wrap-into-block", Cfg(profile="pubsub"), steps=blk + [("placeid", place)] + tail)
         if tier == "thorough":
             st = connected(clean=False, win=2) + [("pub", 0, 2), ("ack", 0, "PUBREC", "old"), ("sub", 0, "str", 1, 1), ("setwin", 0, 4)]
             st += [("pub", 0, 1), ("ack", 0, "PUBACK", "new")] * 70000
@@ -651,10 +666,15 @@ class P18(SessionPlan):
         depth = 3 if tier == "quick" else 4
         cs = [Cfg(profile=p, model="tcp", close_delay=d, re_pub_on_fail=r) for p in ("pubsub", "pub", "sub") for d in (0.0, 20.0) for r in (False, True)]
         cs += [Cfg(profile="pubsub", model="sync", re_pub_on_fail=True)]
-        cs += [Cfg(profile="pubsub", model=m, close_delay=5.0, re_disc_on=w) for m in MODELS for w in ("ack", "suback", "onpublish", "connmade", "connected")]
+        cs += [Cfg(profile="pubsub", model=m, close_delay=5.0, re_disc_on=w) for m in MODELS for w in ("ack", "suback", "onpublish", "connmade", "connected", "fail")]
         alpha = alpha + [("ack", 0, "PUBACK", "old"), ("ack", 0, "SUBACK", "old"), ("inpub", 0, 1)]
         pre = connected(ka=5, win=2) + [("pub", 0, 1), ("pub", 0, 2), ("sub", 0, "str", 1, 0)]
-        return itertools.chain(
+        # a clean connection over a persistent session whose purge fires errbacks (from which the application may disconnect)
+        purge = connected(clean=False, win=1) + [("pub", 0, 1), ("pub", 0, 2), ("lose", 0, "done"), ("build", 0), ("connect", 0, True, 0, 4), ("pub", 0, 1)]
+        extra = [C.SessionCase("purge-errback", Cfg(profile="pubsub", model="tcp", close_delay=d, re_disc_on="fail", re_pub_on_fail=r),
+                               steps=purge + [("connack", 0, 0, False), ("adv", 9), ("pub", 0, 1)])
+                 for d in (0.0, 5.0) for r in (False, True)]
+        return itertools.chain(extra,
             sweep_cases("closing-sweep", cs, pre, alpha, depth),
             sweep_cases("connecting-sweep", cs[:6], [("build", 0), ("connect", 0, True, 5, 4)],
                         alpha + [("connack", 0, 0, False), ("connack", 0, 3, False)], depth))
